@@ -159,11 +159,14 @@ def record(cfg: dict, seed: int, terms: dict) -> sweep.SweepLog:
     P, so = tab["P"], tab["So"]
     n = len(P)
     pvt, kr = mp.interpolators(P, tab["cols"], rho, kr_so, kr_cols, so)
+    # whole-number pressures (0, 10, 20, ... psi) arrive as an integer column when the table is read from a csv file
+    as_int = bool(np.all(P == np.round(P)) and (i // len(FAMILIES)) % 2 == 0)
+    P_code = P.astype(np.int64) if as_int else P
     if i % 2 == 1:
-        mp.warm_with_other_contents(pvt, kr, [lambda: pseudopressure_threephase(P, so, pvt, kr),
-                                              lambda: lambda_combined_func(P, so, pvt, kr)])
-    m = mp.quiet(pseudopressure_threephase, P, so, pvt, kr)
-    lam = mp.quiet(lambda_combined_func, P, so, pvt, kr)
+        mp.warm_with_other_contents(pvt, kr, [lambda: pseudopressure_threephase(P_code, so, pvt, kr),
+                                              lambda: lambda_combined_func(P_code, so, pvt, kr)])
+    m = mp.quiet(pseudopressure_threephase, P_code, so, pvt, kr)
+    lam = mp.quiet(lambda_combined_func, P_code, so, pvt, kr)
     doc = mp.eval_terms(terms["lambda"], pvt, kr, P, so, sw)
     if not np.all(doc > 0):
         raise tlc.MachineryError(f"generated configuration {cfg} has non-positive documented mobility")
@@ -171,15 +174,15 @@ def record(cfg: dict, seed: int, terms: dict) -> sweep.SweepLog:
     top = float(cumulative_trapezoid(doc, P, initial=0)[-1])
     a = float(rng.choice([0.5, 3.0, 1e-3, 40.0]))
     pvt_a, _ = mp.interpolators(P, tab["cols"], {k: a * v for k, v in rho.items()}, kr_so, kr_cols, so)
-    ma = mp.quiet(pseudopressure_threephase, P, so, pvt_a, kr)
+    ma = mp.quiet(pseudopressure_threephase, P_code, so, pvt_a, kr)
     k_i = int(rng.integers(max(2, n // 3), n))  # initial pressure = a table node
     p_i = float(P[k_i])
-    pvt_t, kr_t = mp.frames(P, tab["cols"], so, kr_so, kr_cols, sw, as_frame=bool(i % 2 == 0))
+    pvt_t, kr_t = mp.frames(P_code, tab["cols"], so, kr_so, kr_cols, sw, as_frame=bool(i % 2 == 0))
     fp = mp.from_table(pvt_t, kr_t, rho, phi, sw, p_i)
     sub = np.asarray(fp.pvt_props["pseudopressure"], float)
     col = np.asarray(fp.pvt_props["m-scaled"], float)
     meta = {"what": f"{cfg['family']} table #{i}", "cfg": cfg, "table": tab["meta"], "kr": kr_meta, "rho": rho,
-            "phi": phi, "a": a, "p_i": p_i, "rows": n}
+            "phi": phi, "a": a, "p_i": p_i, "rows": n, "integer_pressure_column": as_int}
     log = sweep.SweepLog()
     if m.shape != P.shape or sub.shape != P.shape:
         m = np.full_like(P, np.nan)
